@@ -23,9 +23,13 @@ const vOdtNS = `xmlns:office="urn:oasis:names:tc:opendocument:xmlns:office:1.0" 
 //
 //symgo:harness prop=C16 kernel=K5-odt-package noreplay=1
 //symgo:redirect archive/zip.OpenReader vStubOpenZip
-//symgo:desc zip layer cut (OpenReader returns a harness-built member list; member content model); parts: mimetype, content.xml (automatic styles + body), styles.xml (named styles, one master page with header and footer paragraphs), meta.xml; body = 2..3 quick / 2..4 thorough elements, each a paragraph with mixed inline content, a heading of outline level 1..3 (enumerated), a list with a nested list, or a 1x2 table (enumerated): Open succeeds; the element list is in source order with IsHeading/Level and IsListItem/ListLevel as authored; Text() has every body text once and in order and none of the header/footer text; HeaderTexts/FooterTexts carry them
+//symgo:desc zip layer cut (OpenReader returns a harness-built member list; member content model); parts: mimetype, content.xml (automatic styles + body), styles.xml (named styles, one master page with header and footer paragraphs), meta.xml; body = 2..3 quick / 2..4 thorough elements, each a paragraph with mixed inline content, a heading of outline level 1..3 whose style is named after the level, "Heading" or "Heading_20_Appendix" (enumerated per document), a list with a nested list, or a 1x2 table (enumerated): Open succeeds; the element list is in source order with IsHeading/Level and IsListItem/ListLevel as authored; Text() has every body text once and in order and none of the header/footer text; HeaderTexts/FooterTexts carry them
 func H_C16_odt_package() {
 	n := vAnyIntIn(2, 3+vTier())
+	styleKind := 0 // how heading styles are named in this document (varied for the two-element bodies)
+	if n == 2 {
+		styleKind = vAnyIntIn(0, 2)
+	}
 	type exp struct {
 		kind  string
 		text  string
@@ -41,7 +45,10 @@ func H_C16_odt_package() {
 			want = append(want, exp{"p", w + " mid end", 0})
 		case 1:
 			lvl := vAnyIntIn(1, 3)
-			body += `<text:h text:style-name="Heading_20_` + string(rune('0'+lvl)) + `" text:outline-level="` + string(rune('0'+lvl)) + `">` + w + `</text:h>`
+			// the style may carry the level in its name, or be a generic / differently named heading style: the
+			// element's own outline level is the level as authored
+			styleName := []string{"Heading_20_" + string(rune('0'+lvl)), "Heading", "Heading_20_Appendix"}[styleKind]
+			body += `<text:h text:style-name="` + styleName + `" text:outline-level="` + string(rune('0'+lvl)) + `">` + w + `</text:h>`
 			want = append(want, exp{"h", w, lvl})
 		case 2:
 			body += `<text:list text:style-name="L1"><text:list-item><text:p>` + w + `0</text:p><text:list><text:list-item><text:p>` + w + `1</text:p></text:list-item></text:list></text:list-item></text:list>`
@@ -214,5 +221,49 @@ func H_C15_odt_package_markdown() {
 			vAssert("no-body-text-lost-or-doubled", strings.Count(md, w.text) == 1)
 		}
 	}
+	vReach("end")
+}
+
+// H_C16_odt_header_rows_and_tracked_changes: rows grouped under table:table-header-rows belong to the grid, and the
+// record of deleted text kept in text:tracked-changes is not body text.
+//
+//symgo:harness prop=C16 kernel=K5b-odt-header-rows-tracked-changes noreplay=1
+//symgo:redirect archive/zip.OpenReader vStubOpenZip
+//symgo:desc zip layer cut (member content model); body = optional text:tracked-changes block holding a deleted paragraph (enumerated), a paragraph, a table whose first row is written directly or inside table:table-header-rows (enumerated) followed by one data row, a paragraph: Open succeeds; the elements are paragraph, table, paragraph in that order; the table has two rows whose cells read hx, hy / a, b; Text() has the four cell texts once and in order between the two paragraphs and does not contain the deleted text
+func H_C16_odt_header_rows_and_tracked_changes() {
+	tracked := vAnyIntIn(0, 1) == 1
+	grouped := vAnyIntIn(0, 1) == 1
+	row := func(x, y string) string {
+		return `<table:table-row><table:table-cell><text:p>` + x + `</text:p></table:table-cell><table:table-cell><text:p>` + y + `</text:p></table:table-cell></table:table-row>`
+	}
+	head := row("hx", "hy")
+	if grouped {
+		head = `<table:table-header-rows>` + head + `</table:table-header-rows>`
+	}
+	body := ""
+	if tracked {
+		body += `<text:tracked-changes><text:changed-region text:id="ct1"><text:deletion><office:change-info><dc:creator xmlns:dc="http://purl.org/dc/elements/1.1/">x</dc:creator></office:change-info><text:p>DELETEDTEXT</text:p></text:deletion></text:changed-region></text:tracked-changes>`
+	}
+	body += `<text:p>before</text:p><table:table table:name="T"><table:table-column table:number-columns-repeated="2"/>` + head + row("a", "b") + `</table:table><text:p>after</text:p>`
+	vZip = &zip.ReadCloser{}
+	vMember("mimetype", "application/vnd.oasis.opendocument.text")
+	vMember("content.xml", `<?xml version="1.0"?><office:document-content `+vOdtNS+`><office:body><office:text>`+body+`</office:text></office:body></office:document-content>`)
+	r, err := Open("any.odt")
+	vAssert("opens", err == nil && r != nil)
+	vAssert("three-elements-in-order", len(r.elements) == 3 && r.elements[0].Type == "paragraph" && r.elements[1].Type == "table" && r.elements[2].Type == "paragraph")
+	t := r.elements[1].Table
+	vAssert("table-grid-as-authored", t != nil && len(t.Rows) == 2 && len(t.Rows[0].Cells) == 2 && len(t.Rows[1].Cells) == 2)
+	vAssert("header-row-first", t.Rows[0].Cells[0].Text == "hx" && t.Rows[0].Cells[1].Text == "hy" && t.Rows[1].Cells[0].Text == "a" && t.Rows[1].Cells[1].Text == "b")
+	txt, terr := r.Text()
+	vAssert("text-no-error", terr == nil)
+	pos := 0
+	for _, w := range []string{"before", "hx", "hy", "a", "b", "after"} {
+		k := strings.Index(txt[pos:], w)
+		vAssert("body-texts-in-document-order", k >= 0)
+		if k >= 0 {
+			pos += k + len(w)
+		}
+	}
+	vAssert("deleted-text-is-not-body-text", !strings.Contains(txt, "DELETEDTEXT"))
 	vReach("end")
 }
